@@ -46,6 +46,16 @@ CHECKS = {
          "Exhaustive enumeration of deposit (credited and refunded, conflicting base denoms), transfer and withdrawal histories over bridged, native and unknown denoms, three signers and amounts {1, balance, balance+1}; oracle: supply and every balance = ledger in every state, an accepted withdrawal burns exactly its amount from the signer only, gets the shared gap-free L2 sequence, emits one faithful event whose base denom is the first mapping; native/unknown/over-balance withdrawals are rejected with an unchanged digest; BaseDenom and NextL2Sequence queries = model.",
          "Trusted: as C06. Bounded: depth 6 (quick) / 8 (thorough).",
          "DESIGN.md §6 C09"),
+ "C13": ("model_checking",
+         "explicit-state IDDFS over real handlers and Begin/EndBlocker + real CometBFT ValidatorSet mirror",
+         "Exhaustive enumeration of every grouping of add/remove/param operations into blocks over 3 operators x 3 consensus keys from two genesis sets (through the real InitGenesis); every EndBlock batch is validated (no key twice, no unknown removal, no negative power) and applied to a real CometBFT ValidatorSet; at every block boundary mirror = positive-power validators = LastValidatorPowers, bonded <= MaxValidators, removed validators are gone, the historical record lists exactly the bonded set within retention; indexes one-to-one in every state.",
+         "Trusted: as C06 plus CometBFT's ValidatorSet.UpdateWithChangeSet as the engine oracle. Removing the last validator is classified separately (outside the property's acceptance clause). Bounded: depth 6 (quick) / 8 (thorough).",
+         "DESIGN.md §6 C13"),
+ "C14": ("model_checking",
+         "explicit-state IDDFS (C13 system + plan letters) + registration probe matrix per state",
+         "C13's search with a RegisterPlan letter (two heights x 9 operator/key combinations + executor-list variants, at most one per history) so that plans meet every validator-set state, max-validator setting and same-block add/remove; the process-local plan table is part of the state. Oracle at the plan height: EndBlock succeeds, batch accepted by the CometBFT mirror, engine holds exactly the plan key, state agrees, executors = exactly the plan list (and the genesis list before); C13's oracle at all other heights; malformed-registration probes in every state leave table and digest unchanged. Known findings D6a/D6b (plan reusing an existing operator with another key / another operator's key) are listed in known_findings.json with structural predicates.",
+         "Trusted: as C13. Bounded: depth 5 (quick) / 6 (thorough).",
+         "DESIGN.md §6 C14, §7"),
 }
 NOT_YET = {}
 
